@@ -250,6 +250,23 @@ def drivers_fail(case):
             return 'driver-mutates-point: cg.%s(x) modified the array x passed by the caller (program: %s)' % (name, case['prog'])
         if not np.array_equal(v, v0):
             return 'driver-mutates-vector: cg.%s modified the vector passed by the caller' % name
+    # jacobian at a Taylor-polynomial point (float64 data: no conversion happens on the way in)
+    pt = np.array(case['pt'], dtype=float)
+    for P_ in (1, 2):
+        c0 = np.zeros((2, P_) + pt.shape)
+        c0[0] = pt
+        c0[1] = np.array(case['v'], dtype=float).reshape(pt.shape) if np.size(case['v']) == pt.size else 0.5
+        pu = UTPM(c0.copy())
+        try:
+            with np.errstate(all='ignore'):
+                first = np.array(cg.jacobian(pu).data)
+                again = np.array(cg.jacobian(pu).data)
+        except Exception:
+            continue
+        if not np.array_equal(pu.data, c0):
+            return 'driver-mutates-point: cg.jacobian(x) modified the Taylor polynomial x passed by the caller (program: %s)' % case['prog']
+        if not np.array_equal(first, again):
+            return 'driver-repeat: a second cg.jacobian(x) at the same Taylor polynomial differs from the first (program: %s)' % case['prog']
     return None
 
 
